@@ -150,6 +150,9 @@ def stateChecks (n : NodeS) (now : Int) : Option String :=
   if n.claims.any (fun (p, _, _) => !peerNames.contains p) then some "C12 a claim in the table points to an address that is not a peer"
   else if n.cache.any (fun (_, p, _) => !peerNames.contains p) then some "C12 a cached / learned route points to an address that is not a peer"
   else if n.peers.any (fun p => p.nodeId = n.id) then some "C14 the node has itself as a peer"
+  -- a pending attempt owns its handshake object until it completes or is given up: one without (`init=-`) can neither finish nor be retried, and blocks every later dial of that address
+  else if ((between n.raw "pending=[" "] own=").splitOn "};").any (fun e => (e.splitOn "{init=-,").length > 1) then
+    some "C05/C15 a pending attempt whose handshake has ended stays behind (its address can never be dialled again)"
   else if n.rc.any (fun (_, _, to, _) => to > 3600) then some "C15 reconnect back-off exceeds one hour"
   else if n.rc.any (fun (_, _, _, nx) => nx > now + 3600) then some "C15 next reconnect attempt is more than one hour away"
   else none
